@@ -563,8 +563,8 @@ def run(ctx: Ctx) -> None:
     for obj in load_corpus("C17"):
         replay(ctx, obj)
     shards = 16
-    n_field = ctx.pick(1600, 24000) // shards
-    n_bytes = ctx.pick(800, 12000) // shards
+    n_field = ctx.pick(3200, 32000) // shards
+    n_bytes = ctx.pick(1600, 16000) // shards
     seeds = [ctx.rng.randrange(2**62) for _ in range(shards)]
     for part in pmap(_worker, [(s, n_field, n_bytes) for s in seeds]):
         ctx.merge(part)
